@@ -207,6 +207,71 @@ def unreachable(frames, cx, n):
     return None
 
 
+def _enum_variants(facts, ty):
+    """Variant paths of a fieldless enum type (given by value or by reference), else None."""
+    ty = str(ty or "").lstrip("&").strip()
+    if ty.startswith("mut "):
+        ty = ty[4:]
+    crate = ty.split("::")[0]
+    try:
+        items = facts.items(crate)
+    except Exception:
+        return None
+    for it in items:
+        if it.get("dk") == "Enum" and it.get("path") == ty:
+            vs = it.get("variants", [])
+            if vs and all(not v.get("fields") for v in vs):
+                return [ty + "::" + v["name"] for v in vs]
+    return None
+
+
+def index_by_enumeration(n, cx, body, N):
+    """`TABLE[f(params)]` in a function whose parameters are all fieldless enums: the function is evaluated abstractly for every
+    combination of variants (a finite, exhaustive domain) and every index it forms into TABLE must be below the table's length."""
+    import abseval
+    import itertools
+    facts = getattr(cx, "facts", None)
+    base = hir.simp(n["e"])
+    if facts is None or N is None or base.get("k") != "def":
+        return None
+    sig = body.get("sig", "")
+    ps = body.get("params", [])
+    doms = []
+    for p_ in ps:
+        if p_.get("k") != "pbind":
+            return None
+        vs = _enum_variants(facts, p_.get("ty"))
+        if vs is None:
+            return None
+        doms.append(vs)
+    total = 1
+    for d in doms:
+        total *= len(d)
+    if not doms or total > 512:
+        return None
+    seen = []
+    try:
+        for combo in itertools.product(*doms):
+            ev = abseval.Evaluator(facts, cx.crate, {"index:" + base["path"]: lambda a: (seen.append(a[0]), ("sym", "element"))[1]},
+                                   inline_crates=INLINE_CRATES)
+            env = abseval.Env()
+            for p_, v in zip(ps, combo):
+                env[p_["name"]] = ("enum", v)
+            try:
+                ev.ev(body["hir"], env)
+            except abseval.Return:
+                pass
+    except (Unrecognised, KeyError, TypeError, IndexError, RecursionError):
+        return None
+    if not seen or not all(v[0] == "int" and 0 <= v[1] < N for v in seen):
+        return None
+    return (f"evaluated for all {total} combination(s) of the enum parameters: the indices formed into {base['path']} are "
+            f"{sorted({v[1] for v in seen})[0]}..={sorted({v[1] for v in seen})[-1]}, table length {N}")
+
+
+INLINE_CRATES = ("anstyle", "anstyle_parse", "anstyle_lossy", "anstream", "anstyle_wincon", "anstyle_query", "colorchoice")
+
+
 def discharge(site, cx, body):
     """→ (rule name, explanation) or None"""
     n = site["node"]
@@ -223,6 +288,9 @@ def discharge(site, cx, body):
         iv = panics.interval(n["i"], cx, refine)
         if N is not None and iv is not None and iv[0] >= 0 and iv[1] <= N - 1:
             return "D-index-interval", f"index in {iv} below array length {N}"
+        why = index_by_enumeration(n, cx, body, N)
+        if why:
+            return "D-index-by-enumeration", why
         # slice: `idx < base.len()` dominating
         ip = hir.place_str(n["i"])
         bp = hir.place_str(n["e"])
@@ -359,6 +427,7 @@ def rule_inventory(facts, rep, crates=None, check_stale=True):
             derived = bool(b.get("expn"))
             is_helper = any(b is h for h in helper_bodies)
             cx = panics.Ctx(b, consts, tables, FIELD_INV)
+            cx.facts, cx.crate = facts, crate
             # discharge on the normalised tree (helpers inlined into their callers); inventory completeness on the tree as written
             hs = [] if is_helper else panics.hir_sites(b["hir"])
             hs_raw = panics.hir_sites(b.get("hir_raw", b["hir"]))
